@@ -162,3 +162,82 @@ func runFixtures(f lib.Flags, res *lib.Result, drv *lib.Driver) {
 		}
 	}
 }
+
+// runClassFixtures covers the glue VerifyClassHashes depends on for Sierra classes: the adapter
+// computes ProgramHash / AbiHash from the definition and SierraClass.Hash() reads only those. Real
+// class fixtures: the adapted class hashes to its file name (the class hash); changing any program
+// element (first / middle / last), the ABI, an entry point or the version changes the hash, i.e.
+// core.VerifyClassHashes rejects the class under its old key.
+func runClassFixtures(f lib.Flags, res *lib.Result) {
+	root := filepath.Join(repoDir(), "clients", "feeder", "testdata")
+	files, _ := filepath.Glob(filepath.Join(root, "*", "class", "0x*.json"))
+	sort.Strings(files)
+	for _, file := range files {
+		if st, err := os.Stat(file); err != nil || st.Size() > int64(f.Scale(3_000_000, 30_000_000)) {
+			continue
+		}
+		raw, err := os.ReadFile(file)
+		if err != nil {
+			continue
+		}
+		var def starknet.ClassDefinition
+		if err := json.Unmarshal(raw, &def); err != nil || def.Sierra == nil {
+			res.Hit("class-fixture-not-sierra")
+			continue
+		}
+		key, err := new(felt.Felt).SetString(strings.TrimSuffix(filepath.Base(file), ".json"))
+		if err != nil {
+			continue
+		}
+		verify := func(s *starknet.SierraClass) error {
+			cls, err := sn2core.AdaptSierraClass(s, nil)
+			if err != nil {
+				return err
+			}
+			return core.VerifyClassHashes(map[felt.Felt]core.ClassDefinition{*key: cls})
+		}
+		res.Hit("class-fixture-sierra")
+		res.Case("classfix/"+filepath.Base(file), true)
+		if err := verify(def.Sierra); err != nil {
+			res.Mismatch(lib.Mismatch{Sig: "class-fixture-hash", Input: file, Model: "class hash = file name", Impl: err.Error()})
+			continue
+		}
+		type mut struct {
+			name string
+			do   func(s *starknet.SierraClass)
+		}
+		var muts []mut
+		for _, i := range positions(len(def.Sierra.Program)) {
+			muts = append(muts, mut{fmt.Sprintf("program[%s]", posName(i, len(def.Sierra.Program))), func(s *starknet.SierraClass) {
+				s.Program = append([]felt.Felt{}, s.Program...)
+				feltInc(&s.Program[i])
+			}})
+		}
+		muts = append(muts,
+			mut{"program-append", func(s *starknet.SierraClass) { s.Program = append(append([]felt.Felt{}, s.Program...), *lib.F(1)) }},
+			mut{"abi", func(s *starknet.SierraClass) { s.Abi += " " }},
+			mut{"version", func(s *starknet.SierraClass) { s.Version += "1" }})
+		if n := len(def.Sierra.EntryPoints.External); n > 0 {
+			muts = append(muts, mut{"external-selector", func(s *starknet.SierraClass) {
+				s.EntryPoints.External = append([]starknet.SierraEntryPoint{}, s.EntryPoints.External...)
+				sel := *s.EntryPoints.External[n-1].Selector
+				feltInc(&sel)
+				s.EntryPoints.External[n-1].Selector = &sel
+			}}, mut{"external-index", func(s *starknet.SierraClass) {
+				s.EntryPoints.External = append([]starknet.SierraEntryPoint{}, s.EntryPoints.External...)
+				s.EntryPoints.External[0].Index++
+			}})
+		}
+		for _, m := range muts {
+			c := *def.Sierra
+			m.do(&c)
+			res.Case("classfix/"+filepath.Base(file)+"/"+m.name, true)
+			res.Hit("tamper-class-fixture")
+			if err := verify(&c); err == nil {
+				res.Violate(lib.Violation{Sig: "tampered-class-definition-accepted:" + strings.SplitN(m.name, "[", 2)[0],
+					What:   fmt.Sprintf("class fixture %s: definition changed (%s) and core.VerifyClassHashes still accepts it under the old class hash", filepath.Base(file), m.name),
+					Replay: map[string]string{"fixture": file, "mutation": m.name}})
+			}
+		}
+	}
+}
